@@ -234,7 +234,7 @@ theorem unpad_layout (guard : Bool) (msg t : Bytes) (hm : msg.length + 10 < 2 ^ 
   have hnpos : ¬ ((v.length : Int) ≤ 0) := by omega
   simp only [hnpos, if_false, Int.toNat_natCast]
   cases guard
-  · -- pinned code path
+  · -- code path before 32710c6 (guard = false)
     have hvl : (UInt64.ofNat v.length).toNat = v.length := ofNat_toNat_lt _ (by omega)
     have hend : (UInt64.ofNat v.length + UInt64.ofNat msg.length).toNat = v.length + msg.length := by
       rw [UInt64.toNat_add, hvl, hml]; apply Nat.mod_eq_of_lt; omega
@@ -335,7 +335,7 @@ theorem unpad_guard_total (p : Bytes) :
       refine ⟨by omega, by omega, hm.symm, ?_⟩
       rw [← hm]; simp; omega
 
-/-- Pinned code: UnpadMessage panics exactly when `varintLen + msgLen` wraps around `uint64` and
+/-- UnpadMessage before 32710c6 (`guard = false`) panics exactly when `varintLen + msgLen` wraps around `uint64` and
 the wrapped value does not exceed the buffer length. -/
 theorem unpad_pinned_panic_iff (p : Bytes) (hlen : p.length < 2 ^ 64) :
     unpad false p = .panic ↔
@@ -377,7 +377,7 @@ theorem unpad_pinned_panic_iff (p : Bytes) (hlen : p.length < 2 ^ 64) :
       · simp [hgt]; omega
       · simp [hgt, h2]; omega
 
-/-- Where the pinned code does not panic it computes what the guarded code computes. -/
+/-- Where the unguarded code does not panic it computes what the guarded code computes. -/
 theorem unpad_variants_agree (p : Bytes) (hlen : p.length < 2 ^ 64) (h : unpad false p ≠ .panic) :
     unpad false p = unpad true p := by
   have hiff := unpad_pinned_panic_iff p hlen
